@@ -370,8 +370,20 @@ static int add_gvs_to_hawk (hawk_t* hawk, arg_t* arg)
 
 		for (i = 0; i < arg->gvm.size; i++)
 		{
-			arg->gvm.ptr[i].idx = arg->gvm.ptr[i].uc? hawk_addgblwithucstr(hawk, arg->gvm.ptr[i].name):
-			                                          hawk_addgblwithbcstr(hawk, arg->gvm.ptr[i].name);
+			int idx;
+
+			idx = arg->gvm.ptr[i].uc? hawk_addgblwithucstr(hawk, arg->gvm.ptr[i].name):
+			                          hawk_addgblwithbcstr(hawk, arg->gvm.ptr[i].name);
+			if (idx <= -1 && hawk_geterrnum(hawk) == HAWK_EDUPGBL)
+			{
+				/* the name is a built-in global variable like OFS or it is
+				 * given more than once. assign to the existing variable */
+				idx = arg->gvm.ptr[i].uc? hawk_findgblwithucstr(hawk, arg->gvm.ptr[i].name, 1):
+				                          hawk_findgblwithbcstr(hawk, arg->gvm.ptr[i].name, 1);
+			}
+			if (idx <= -1) return -1;
+
+			arg->gvm.ptr[i].idx = idx;
 		}
 	}
 
@@ -411,7 +423,11 @@ static int apply_fs_and_gvs_to_rtx (hawk_rtx_t* rtx, arg_t* arg)
 			if (HAWK_UNLIKELY(!v)) return -1;
 
 			hawk_rtx_refupval (rtx, v);
-			hawk_rtx_setgbl (rtx, arg->gvm.ptr[i].idx, v);
+			if (hawk_rtx_setgbl(rtx, arg->gvm.ptr[i].idx, v) <= -1)
+			{
+				hawk_rtx_refdownval (rtx, v);
+				return -1;
+			}
 			hawk_rtx_refdownval (rtx, v);
 		}
 	}
